@@ -43,7 +43,7 @@ Proof. exact prefilter_keeps. Qed.
 Print Assumptions C13_prefilter_sound.
 
 (* JSON: if every non-empty line decodes, exactly the comprehension; if some non-empty line does not, the error
-   and no partial result.  (Per line the records follow the tracked-name list, each name once.) *)
+   and no partial result.  (Per line the records follow the tracked-name list, each name once: the REPAIRED loop, see C13_json_pinned_agrees.) *)
 Theorem C13_json_spec : forall filt df compiles matches rfc3339 decode ms fs content,
   ms <> [] ->
   (existsb (malformed decode) (split_lines content) = false /\
@@ -78,12 +78,26 @@ Theorem C13_timestamp_json : forall rfc3339 kvs,
 Proof. exact json_timestamp_cases. Qed.
 Print Assumptions C13_timestamp_json.
 
+(* Known finding json-duplicate-metric.  [json_records] above is the loop over the tracked names in its repaired
+   form (each name once); [json_records_pinned] is the loop as the pinned tree has it.  They agree whenever no
+   tracked name is listed twice; with a repeated name the pinned loop reports one occurrence twice. *)
+Theorem C13_json_pinned_agrees : forall rfc3339 ms kvs,
+  NoDup ms -> json_records_pinned rfc3339 ms kvs = json_records rfc3339 ms kvs.
+Proof. exact json_records_pinned_nodup. Qed.
+Print Assumptions C13_json_pinned_agrees.
+
+Theorem C13_json_dup_refuted :
+  exists ms kvs, ~ NoDup (json_records_pinned (fun _ => false) ms kvs) /\
+                 json_records_pinned (fun _ => false) ms kvs <> json_records (fun _ => false) ms kvs.
+Proof. exact json_dup_refuted. Qed.
+Print Assumptions C13_json_dup_refuted.
+
 (* The fallback: objective (head of the list) never reported -> exactly one record (zero time, objective,
    "unavailable"); reported at least once -> the found records unchanged. *)
 Theorem C13_fallback : forall obj rest found,
   ((forall x, In x found -> mname x <> obj) -> fallback (obj :: rest) found = [MLog (TsText zero_time) obj unavailable]) /\
   ((exists x, In x found /\ mname x = obj) -> fallback (obj :: rest) found = found).
-Proof. intros obj rest found. split; [exact (fallback_missing obj rest found)|exact (fallback_present obj rest found)]. Qed.
+Proof. exact fallback_both. Qed.
 Print Assumptions C13_fallback.
 
 (* Timestamp of a TEXT line: the text before the first blank if time.Parse accepts it, the zero time otherwise
@@ -92,7 +106,7 @@ Theorem C13_timestamp_text : forall filt matches rfc3339 ms fs l,
   ((exists a b, l = a ++ space :: b /\ ~ In space a /\ rfc3339 a = true /\ line_timestamp rfc3339 l = a) \/
    ((forall a b, l = a ++ space :: b -> ~ In space a -> rfc3339 a = false) /\ line_timestamp rfc3339 l = zero_time)) /\
   (forall x, In x (spec_line filt matches rfc3339 ms fs l) -> ts x = TsText (line_timestamp rfc3339 l) /\ In (mname x) ms).
-Proof. intros filt matches rfc3339 ms fs l. split; [exact (timestamp_text rfc3339 l)|exact (spec_line_ts filt matches rfc3339 ms fs l)]. Qed.
+Proof. exact timestamp_text_both. Qed.
 Print Assumptions C13_timestamp_text.
 
 (* Integral epoch timestamps: the instant handed to time.Unix is the numeral's value (in ns), hence order is preserved. *)
